@@ -38,6 +38,11 @@ import (
 	"verif.local/engine/polyenv"
 )
 
+// hand-over families: old list -> new list (codes of listCodes), model epoch 8
+var handoverPairs = []struct{ name, old, nw string }{{"shrink-7-3", "P", "R"}, {"grow-3-7", "A", "P"}, {"shrink-5-3", "Q", "A"}}
+
+const famEpoch = 8
+
 const (
 	mscEpoch  = 3 // clique checkpoint distance configured for the msc chain (ExtraInfo.Epoch) = model epoch of all chains
 	borSprint = 4
@@ -113,6 +118,22 @@ func main() {
 			}
 		}
 	}
+	famChain := map[string]uint64{}
+	for i, rt := range routers {
+		if rt.Family != posa.Parlia && rt.Family != posa.Congress {
+			continue
+		}
+		for j, pr := range handoverPairs {
+			c := uint64(501 + 10*i + j)
+			famChain[rt.Name+"/"+pr.name] = c
+			if err := rt.WithEpoch(famEpoch).Register(w, env.Vals, c, 1, []byte{1, 2, 3}); err != nil {
+				r.HarnessError("%v", err)
+			}
+			if sc, err := side_chain_manager.GetSideChain(hsenv.Reader(w), c); err != nil || sc == nil {
+				r.HarnessError("side chain %d (%s/%s) not registered: %v", c, rt.Name, pr.name, err)
+			}
+		}
+	}
 	base := w.Dump()
 	w.Close()
 
@@ -172,6 +193,47 @@ func main() {
 		per[rt.Name] = map[string]any{"states": st.States, "transitions": st.Transitions, "max_depth": st.MaxDepth, "per_depth": st.PerDepth,
 			"truncated": st.Truncated, "trust_root_height": gh, "depth_bound": d, "covered": covered(rt), "missing": missing(rt)}
 	}
+	// --- directed hand-over families (parlia / congress routers): validator sets of 3..7 that SHRINK or GROW across a
+	// len/2 boundary. An honest in-turn backbone runs from the trust root (epoch block 1000 listing the old set) over the
+	// next epoch header (1008, lists the new set) until both windows have passed; from every backbone prefix that ends
+	// within len(old)/2+1 blocks before the epoch header or later, every sealer (all 7 keys + outsider) x both
+	// difficulties is tried on the tip, to the given deviation depth. Same oracle, same violation keys.
+	famKeys := make([]posa.Key, 8)
+	for i := range famKeys {
+		famKeys[i] = posa.KeyOf(10 + i)
+	}
+	famDepth := r.QT(2, 4)
+	for _, rt := range routers {
+		if rt.Family != posa.Parlia && rt.Family != posa.Congress {
+			continue
+		}
+		if len(only) > 0 && !only[rt.Name] {
+			continue
+		}
+		fams := map[string]any{}
+		for _, pr := range handoverPairs {
+			old, nw := listCodes[pr.old], listCodes[pr.nw]
+			m := &model{rt: rt, keys: famKeys, epoch: famEpoch, gprev: old, epochLists: []string{pr.nw}}
+			g, graw := genesis(m, 1000)
+			opt := &famOpt{name: pr.name, backbone: famEpoch + len(old)/2 + len(nw)/2 + 2, from: famEpoch - len(old)/2 - 1, nkeys: len(famKeys)}
+			st := explore(r, env, m, sims, base, famChain[rt.Name+"/"+pr.name], g, graw, famDepth, workers, opt)
+			totalStates += st.States
+			totalTrans += st.Transitions
+			if st.Truncated {
+				r.Capped(fmt.Sprintf("%s/%s: deadline", rt.Name, pr.name))
+			}
+			fams[pr.name] = map[string]any{"old_set": old, "new_set": nw, "epoch_header": 1000 + famEpoch, "backbone_headers": opt.backbone,
+				"start_prefixes": opt.backbone - opt.from + 1, "deviation_depth": famDepth, "states": st.States, "transitions": st.Transitions}
+			if len(only) == 0 {
+				ct := rt.Name + ":" + pr.name
+				r.Require(ct+":accept", ct+":accept-under-new-set", ct+":reject:signer-within-recent-window", ct+":reject:signer-not-in-validator-set",
+					ct+":reject:difficulty-does-not-match-turn")
+			}
+		}
+		if pm, ok := per[rt.Name].(map[string]any); ok {
+			pm["handover_families"] = fams
+		}
+	}
 	if len(only) == 0 { // (ev.Finish reports violations before the vacuity guard)
 		for _, rt := range routers {
 			r.Require(rt.Name+":accept", rt.Name+":reject", rt.Name+":accept-list-header", rt.Name+":accept-under-new-set",
@@ -190,14 +252,14 @@ func main() {
 	r.Finish(map[string]any{
 		"rule":   "stored => parent stored && sealer in the validator set in force && not within the recent-signer window (len/2 previous blocks) && difficulty == in-turn?2:1 (bor: N - succession) && fixed-format fields well formed; canonical index rooted/contiguous/linked, TD sums, canonical head has maximal TD",
 		"states": totalStates, "transitions": totalTrans, "traces_validated_against_impl": totalTrans, "max_depth": maxDepth,
-		"bfs_depth_bound": depths, "routers": per, "validator_keys": "k0..k3 (+k4 outsider), sets A={k0,k1,k2} B={k3,k1,k2} C={k0,k1,k2,k3}",
+		"bfs_depth_bound": depths, "routers": per, "validator_keys": "BFS: k0..k3 (+k4 outsider), sets A={k0,k1,k2} B={k3,k1,k2} C={k0,k1,k2,k3}; hand-over families: k0..k6 (+k7 outsider), P={k0..k6} Q={k0..k4} R={k6,k2,k4} A={k0,k1,k2}",
 	})
 }
 
 var stopProf = func() {}
 
 func covered(rt *posa.Router) []string {
-	c := []string{"real seals by members / non-members / outsider", "both difficulties per sealer", "recent-signer window (sets of 3 and 4)",
+	c := []string{"real seals by members / non-members / outsider", "both difficulties per sealer", "recent-signer window (sets of 3 and 4; 3, 5 and 7 in the hand-over families)",
 		"forks on every stored header, TD ties, reorgs", "orphans, duplicates", "malformed: " + strings.Join((&model{rt: rt}).kinds(), ",")}
 	switch rt.Family {
 	case posa.Parlia:
@@ -217,7 +279,7 @@ func missing(rt *posa.Router) []string {
 	case posa.Bor:
 		return []string{"heimdall span proof of sprint-end headers (skipVerifySpan)", "independent proposer-priority model (proposer read from the stored snapshot)", "unequal voting powers"}
 	case posa.Parlia, posa.Congress:
-		return []string{"validator sets larger than 4"}
+		return []string{"validator sets larger than 7; sets of 5..7 only along directed hand-over chains (no forks there)"}
 	}
 	return []string{"signer sets larger than 4"}
 }
